@@ -2,6 +2,7 @@ package rules
 
 import (
 	"go/constant"
+	"go/token"
 	"go/types"
 	"strings"
 
@@ -69,26 +70,72 @@ func (c *Ctx) nameGuard(f *ssa.Function, param string, names []string, protect [
 			continue
 		}
 		sc := call.Call.StaticCallee()
-		if sc == nil || (sc.Name() != "EqualFold" && sc.Name() != "HasPrefix") || len(call.Call.Args) != 2 {
+		if sc == nil {
 			continue
 		}
-		a0, a1 := call.Call.Args[0], call.Call.Args[1]
-		if !((fromParam(a0) && isName(a1)) || (fromParam(a1) && isName(a0))) {
-			continue
-		}
-		// HasPrefix must be on a case-folded value
-		if sc.Name() == "HasPrefix" {
-			folded := engine.AnyBackward(a0, engine.FlowOpts{}, func(x ssa.Value) bool {
-				if cl, ok := x.(*ssa.Call); ok {
-					if s2 := cl.Call.StaticCallee(); s2 != nil && (s2.Name() == "ToLower" || s2.Name() == "ToUpper") {
-						return true
-					}
-				}
+		// direct test, or a predicate of this code base that returns such a test of its parameter
+		var nameTest func(call *ssa.Call, from func(ssa.Value) bool, depth int) bool
+		nameTest = func(call *ssa.Call, from func(ssa.Value) bool, depth int) bool {
+			sc := call.Call.StaticCallee()
+			if sc == nil {
 				return false
-			})
-			if !folded {
-				continue
 			}
+			if (sc.Name() == "EqualFold" || sc.Name() == "HasPrefix") && len(call.Call.Args) == 2 && engine.PkgPathOf(sc) == "strings" {
+				a0, a1 := call.Call.Args[0], call.Call.Args[1]
+				if !((from(a0) && isName(a1)) || (from(a1) && isName(a0))) {
+					return false
+				}
+				if sc.Name() == "HasPrefix" {
+					// HasPrefix must be on a case-folded value
+					return engine.AnyBackward(a0, engine.FlowOpts{Loads: true}, func(x ssa.Value) bool {
+						if cl, ok := x.(*ssa.Call); ok {
+							if s2 := cl.Call.StaticCallee(); s2 != nil && (s2.Name() == "ToLower" || s2.Name() == "ToUpper") {
+								return true
+							}
+						}
+						return false
+					})
+				}
+				return true
+			}
+			if depth >= 2 || len(sc.Blocks) == 0 || !c.P.IsOwn(sc) {
+				return false
+			}
+			// predicate g(…param…) bool: every return value is such a test of the corresponding parameter
+			var gp *ssa.Parameter
+			for i, a := range call.Call.Args {
+				if i < len(sc.Params) && from(a) {
+					gp = sc.Params[i]
+				}
+			}
+			if gp == nil {
+				return false
+			}
+			fromG := func(v ssa.Value) bool {
+				return engine.AnyBackward(v, engine.FlowOpts{Loads: true, Calls: func(call *ssa.Call) []ssa.Value {
+					if s3 := call.Call.StaticCallee(); s3 != nil && (s3.Name() == "ToLower" || s3.Name() == "ToUpper" || s3.Name() == "TrimSpace") {
+						return call.Call.Args
+					}
+					return nil
+				}}, func(x ssa.Value) bool { return x == ssa.Value(gp) })
+			}
+			rets := engine.Returns(sc)
+			if len(rets) == 0 {
+				return false
+			}
+			for _, r := range rets {
+				if len(r.Results) != 1 {
+					return false
+				}
+				inner, ok := engine.ResultOf(r, 0).(*ssa.Call)
+				if !ok || !nameTest(inner, fromG, depth+1) {
+					return false
+				}
+			}
+			return true
+		}
+		if !nameTest(call, fromParam, 0) {
+			continue
 		}
 		// matching edge returns a non-nil error
 		ok2 := false
@@ -108,7 +155,87 @@ func (c *Ctx) nameGuard(f *ssa.Function, param string, names []string, protect [
 			guards = append(guards, b)
 		}
 	}
-	if len(guards) == 0 {
+	// the test may live in a validating helper: `if err := g(…param…); err != nil { return …err }` where every
+	// nil-error return of g is covered by such a guard on the corresponding parameter of g
+	type edgeGuard struct {
+		b   *ssa.BasicBlock
+		idx int
+	}
+	var helperGuards []edgeGuard
+	if c.guardDepth < 2 {
+		for _, b := range f.Blocks {
+			iff := engine.IfOf(b)
+			if iff == nil {
+				continue
+			}
+			cmp, ok := iff.Cond.(*ssa.BinOp)
+			if !ok || (cmp.Op != token.NEQ && cmp.Op != token.EQL) || !(engine.IsNilConst(cmp.Y) || engine.IsNilConst(cmp.X)) {
+				continue
+			}
+			errV := cmp.X
+			if engine.IsNilConst(cmp.X) {
+				errV = cmp.Y
+			}
+			var call *ssa.Call
+			switch t := errV.(type) {
+			case *ssa.Call:
+				call = t
+			case *ssa.Extract:
+				call, _ = t.Tuple.(*ssa.Call)
+			}
+			if call == nil {
+				continue
+			}
+			g := call.Call.StaticCallee()
+			if g == nil || len(g.Blocks) == 0 || !c.P.IsOwn(g) {
+				continue
+			}
+			gp := ""
+			for i, a := range call.Call.Args {
+				if i < len(g.Params) && fromParam(a) {
+					gp = g.Params[i].Name()
+				}
+			}
+			if gp == "" {
+				continue
+			}
+			var nilRets []ssa.Instruction
+			for _, r := range engine.Returns(g) {
+				if lr := engine.LastResult(r); lr != nil && engine.IsNilConst(lr) {
+					nilRets = append(nilRets, r)
+				}
+			}
+			if len(nilRets) == 0 {
+				continue
+			}
+			c.guardDepth++
+			okg, _ := c.nameGuard(g, gp, names, nilRets)
+			c.guardDepth--
+			if !okg {
+				continue
+			}
+			nilIdx := 1
+			if cmp.Op == token.EQL {
+				nilIdx = 0
+			}
+			// the error edge must return a non-nil error
+			refuses := false
+			for blk := range engine.BlocksReachableFrom(b.Succs[1-nilIdx]) {
+				if !(blk == b.Succs[1-nilIdx] || engine.EdgeDominates(b, 1-nilIdx, blk)) || len(blk.Instrs) == 0 {
+					continue
+				}
+				if ret, isRet := blk.Instrs[len(blk.Instrs)-1].(*ssa.Return); isRet {
+					if lr := engine.LastResult(ret); lr != nil && !engine.IsNilConst(lr) {
+						refuses = true
+					}
+				}
+			}
+			if refuses {
+				helperGuards = append(helperGuards, edgeGuard{b, nilIdx})
+			}
+		}
+	}
+	if len(guards) == 0 && len(helperGuards) == 0 {
 		return false, "no case-insensitive comparison of " + param + " with the protected name that refuses the operation"
 	}
 	for _, in := range protect {
@@ -118,6 +245,11 @@ func (c *Ctx) nameGuard(f *ssa.Function, param string, names []string, protect [
 				covered = true
 			}
 			// short-circuit `a || b`: the instruction is dominated by the false edge of the last test of the chain
+		}
+		for _, hg := range helperGuards {
+			if engine.EdgeDominates(hg.b, hg.idx, in.Block()) {
+				covered = true
+			}
 		}
 		if !covered {
 			return false, "the operation at " + c.P.Pos(in.Pos()) + " is reachable without passing the guard on " + param
@@ -189,18 +321,7 @@ func c20(c *Ctx) {
 			R.Fail("R20.1", c.name(app)+"|calls-AppendRegular", P.Pos(app.Pos()), "Mailbox.Append does not call AppendRegular")
 		} else {
 			// recovery instruction: call taking a closure that calls actionCreateRecoveredMessage
-			cut := map[ssa.Instruction]bool{}
-			for _, cs := range engine.Calls(app) {
-				for _, a := range cs.Common().Args {
-					if fn := engine.FuncValue(a); fn != nil && fn.Parent() != nil {
-						for _, cs2 := range engine.Calls(fn) {
-							if sc := cs2.Common().StaticCallee(); sc != nil && sc.Name() == "actionCreateRecoveredMessage" {
-								cut[cs.Instr] = true
-							}
-						}
-					}
-				}
-			}
+			cut := recoveryCalls(app, 0)
 			// error edge of AppendRegular
 			var errBlk *ssa.BasicBlock
 			for _, r := range *regCall.Referrers() {
@@ -415,4 +536,40 @@ func c20(c *Ctx) {
 			}
 		}
 	}
+}
+
+// recoveryCalls: the instructions of f that attempt the recovery insert: a call that is handed a
+// closure calling actionCreateRecoveredMessage, or a call of a gluon helper in which every path to a
+// return passes such an instruction (two frames).
+func recoveryCalls(f *ssa.Function, depth int) map[ssa.Instruction]bool {
+	cut := map[ssa.Instruction]bool{}
+	for _, cs := range engine.Calls(f) {
+		if cs.Instr.Parent() != f {
+			continue
+		}
+		for _, a := range cs.Common().Args {
+			if fn := engine.FuncValue(a); fn != nil && fn.Parent() != nil {
+				for _, cs2 := range engine.Calls(fn) {
+					if sc := cs2.Common().StaticCallee(); sc != nil && sc.Name() == "actionCreateRecoveredMessage" {
+						cut[cs.Instr] = true
+					}
+				}
+			}
+		}
+		if g := cs.Common().StaticCallee(); g != nil && depth < 2 && len(g.Blocks) > 0 && strings.HasPrefix(engine.PkgPathOf(g), "github.com/ProtonMail/gluon/internal/state") {
+			inner := recoveryCalls(g, depth+1)
+			if len(inner) > 0 {
+				must := true
+				for _, r := range engine.Returns(g) {
+					if engine.ReachesAvoiding(g, r, inner, nil) {
+						must = false
+					}
+				}
+				if must {
+					cut[cs.Instr] = true
+				}
+			}
+		}
+	}
+	return cut
 }
